@@ -73,17 +73,25 @@ TraceCli ==
   /\ LET e == Trace[l]
          files == Len(e.out_files) + Len(e.cwd_files)
          left == IF e.target_kind = "symlink_dir" THEN files ELSE files
-     IN Rec(IF ExpectFail(e)
+     IN Rec((IF ExpectFail(e)
             THEN Cl(e.exit # 0, "C06.cli_nonzero_exit")
-                 \cup Cl(e.fault = "none" \/ e.mentions_cause, "C06.cli_prints_cause")
-                 \cup Cl(~e.file_at_expected /\ files = 0, "C06.cli_no_file_left")
+                 \* the cause printed is that of the FIRST step that fails: packager inference precedes everything else
+                 \cup Cl(IF ~e.with_p /\ ~CanInfer(e.fmt, e.target_kind) THEN e.mentions_packager
+                         ELSE (e.fault = "none" \/ e.mentions_cause), "C06.cli_prints_cause")
+                 \* nothing nfpm created is left; what was at the -t name before a run that fails before creating anything stays
+                 \cup Cl(e.obs_fs \in {"absent", "old"}, "C06.cli_no_file_left")
                  \cup Cl(e.created_line = "", "C06.cli_no_success_message")
             ELSE Cl(e.exit = 0, "C15.cli_succeeds")
                  \cup Cl(e.file_at_expected, "C15.cli_writes_to_requested_target")
                  \cup Cl(e.bytes_equal_library_build, "C06.cli_output_complete")
                  \cup Cl(files = 1, "C15.cli_no_stray_files")
-                 \cup Cl(e.created_line # "", "C15.cli_reports_created_package"),
-            {}, {})
+                 \cup Cl(e.created_line # "", "C15.cli_reports_created_package"))
+            \* spec -> code: the terminal state TLC computed for this argv (Cli.tla, exported behaviours) vs the projection of the real run
+            \cup (IF e.tlc.present
+                  THEN Cl(e.obs_exit = e.tlc.exit /\ e.obs_fs = e.tlc.fs /\ (e.created_line # "") = e.tlc.created, "C06.cli_terminal_state_as_specified")
+                       \cup Cl(e.tlc.exit # 0 \/ e.obs_where = e.tlc.where, "C15.cli_writes_where_specified")
+                  ELSE {}),
+            {}, IF e.tlc.present /\ ExpectFail(e) # (e.tlc.exit # 0) THEN {"trace_spec_and_Cli_module_disagree"} ELSE {})
   /\ UNCHANGED <<cid, ncases>>
 
 TraceEof ==
